@@ -201,6 +201,7 @@ func (u *Unit) run() {
 		u.trusted["assumption in "+u.name+": "+rq.Text] = true
 	}
 	u.assumeRepInv(st, names)
+	u.prepareReplay(old)
 	u.cover(st, "vacuity.requires", "precondition (requires ∧ repinv ∧ type ranges) is satisfiable")
 	st.trace = []string{"entry " + u.name}
 	outs := u.execBlock(st, u.body.List)
